@@ -119,11 +119,100 @@ def cli_faults(ctx, stats):
     stats["cli_level"] = st
 
 
+def dynamic_faults(ctx, stats):
+    """Dynamic solvers (all 8 configurations): every generated history is first run fault-free to count its SAT
+    calls, then re-run with the first, the last and a random one of them answering Unknown.  The query that
+    receives the Unknown answer must abort (no status, no certificate); everything before it must be as in the
+    model (C17_dynamic_unknown_aborts is the theorem about the model)."""
+    import dyn_common as dc
+    h = build_harness(ctx)
+    d = build_driver(ctx)
+    if not h or not d:
+        return
+    thr = hybrid_threshold()
+    total = 4800 if ctx.thorough else 640
+    st = {"fault_histories": 0, "aborted_at_the_faulty_call": 0, "fault_not_reached": 0, "by_kind": {}, "compared_with_model": 0}
+    corr = None
+    for sh_ in run_mode(ctx, h, d, "dynamic", total, extra="--faults 1 --invalid 0", tag="dynfault",
+                        drv_modes=[("dynamic", "--thr %d" % thr)]):
+        if isinstance(sh_[0], str):
+            ctx.violation("%s: %s" % (sh_[0], sh_[1][1][-500:]), "command: %s\n" % sh_[2], found_input=False)
+            continue
+        impl, (model,), path = sh_
+        mm = {c.id: c for c in model}
+        for c in impl:
+            st["fault_histories"] += 1
+            kind = c.kind.split("/")[-1]
+            st["by_kind"][kind] = st["by_kind"].get(kind, 0) + 1
+            steps = dc.per_step(c)
+            hit = None
+            for i, (inl, evs, outs) in enumerate(steps):
+                if any(e.endswith("=> X") for e in evs):
+                    hit = (i, inl, evs, outs)
+                    break
+            if hit is None:
+                st["fault_not_reached"] += 1
+            else:
+                i, inl, evs, outs = hit
+                solves = [e for e in evs if " solve " in e]
+                o = outs[0] if outs else ""
+                if not o.startswith("panic"):
+                    ctx.violation("dynamic solver %s: an Unknown answer of the SAT solver was converted into an answer: step `%s` returned `%s`" % (kind, inl, o[:80]),
+                                  c.text(), found_input=True, key="dyn-unknown-" + kind)
+                    continue
+                if not solves[-1].endswith("=> X"):
+                    ctx.violation("dynamic solver %s: the query went on after an Unknown answer (step `%s`)" % (kind, inl), c.text(), found_input=True,
+                                  key="dyn-continued-" + kind)
+                    continue
+                st["aborted_at_the_faulty_call"] += 1
+            m = mm.get(c.id)
+            if m is None:
+                why = "model produced no output"
+            elif any(o.startswith(("not-modelled", "skipped-long-script")) for o in m.outs):
+                continue
+            else:
+                # events after the Unknown answer belong to Rust's unwinding (Drop of the MaximalExtensionComputer
+                # adds one more clause): outside the query, ignored
+                def cut(steps):
+                    res = []
+                    for (inl, evs, outs) in steps:
+                        k = next((j for j, e in enumerate(evs) if e.endswith("=> X")), None)
+                        if k is not None:
+                            res.append((inl, evs[:k + 1], outs))
+                            break
+                        res.append((inl, evs, outs))
+                    return res
+                a, b = cut(steps), cut(dc.per_step(m))
+                why = None
+                for j in range(max(len(a), len(b))):
+                    if j >= len(a) or j >= len(b):
+                        why = "step %d: %s" % (j, "model stops early" if j >= len(b) else "model has extra steps")
+                        break
+                    de = first_diff(dc.canon_events(a[j][1]), dc.canon_events(b[j][1]))
+                    if de is not None:
+                        why = "step %d `%s` event %d: impl `%s` model `%s`" % (j, a[j][0], de[0], de[1], de[2])
+                        break
+                    if [dc.canon_dyn_out(x) for x in a[j][2]] != [dc.canon_dyn_out(x) for x in b[j][2]]:
+                        why = "step %d `%s` outcome: impl `%s` model `%s`" % (j, a[j][0], "; ".join(a[j][2])[:120], "; ".join(b[j][2])[:120])
+                        break
+            if why is not None:
+                corr = corr or (c, why)
+            else:
+                st["compared_with_model"] += 1
+    if corr and not ctx.violations:
+        c, why = corr
+        ctx.violation("correspondence Model.Dynamic vs /repo under fault injection no longer checks (%s); no Unknown answer was converted into a result on the generated histories" % why,
+                      c.text(), found_input=False)
+    stats["dynamic_level"] = st
+
+
 def main(ctx):
     total = 24000 if ctx.thorough else 2400
     cli_stats = {}
     cli_faults(ctx, cli_stats)
     ctx.cov["cli_level_fault_injection"] = cli_stats.get("cli_level", {})
+    dynamic_faults(ctx, cli_stats)
+    ctx.cov["dynamic_solver_fault_injection"] = cli_stats.get("dynamic_level", {})
     static_check(
         ctx, "static", total, extra="--faults", judge=judge, extra_stats=extra,
         rule="generated frameworks x all 18 library problems x encoders x with/without certificate; each query is first run fault-free to count its SAT calls K, then re-run once per call position k < K (all positions when K <= 10, else first/last two and six random ones) with the k-th answer replaced by Unknown through a SatSolver wrapper injected by the public factory API; outcome must be an abort (panic) with the Unknown as the last SAT event, and the whole trace is replayed on Model.Solvers, for which C17_unknown_aborts is proved",
